@@ -142,4 +142,5 @@ NChunks(n, c) == (n + c - 1) \div c
 ChunkingKeepsAll == \A n \in 1..11 : \A nf \in 1..5 :
    /\ Chunk(n, nf) >= 1
    /\ NChunks(n, Chunk(n, nf)) <= nf + 1
+Terminates == <>(pc = "done")
 =============================================================================
